@@ -187,3 +187,32 @@ add('C03.fcast_index', 'C03', (FCS, "          input_index=2,\n          weight_
 add('C03.twin_table_refactor', 'C03', (MMU, "    if is_inbounding_tensor:\n      transformations = [_QuantTransformation.ADD_QUANTIZE]\n      if is_constant:\n        # Quantize the constant tensor directly to simplify downstream\n        # optimizations.\n        transformations = [_QuantTransformation.QUANTIZE_TENSOR]\n    else:",
     "    if is_inbounding_tensor and is_constant:\n      transformations = [_QuantTransformation.QUANTIZE_TENSOR]\n    elif is_inbounding_tensor:\n      transformations = [_QuantTransformation.ADD_QUANTIZE]\n    else:"),
     (), 'equivalent restructuring of the SRQ arm', kind='twin')
+
+# ---------------------------------------------------------------------- C17
+UQT = 'algorithms/uniform_quantize/uniform_quantize_tensor.py'
+add('C17.f8', 'C17', (UQT, "      tensor_data.astype(np.float64) - quantization_params.zero_point,", "      tensor_data - quantization_params.zero_point,"),
+    'C17.R5', 'defect F8 returns: zero point subtracted in int8', control=True)
+add('C17.sym_clamp', 'C17', (UQT, "    bound = np.maximum(np.abs(min_value), np.abs(max_value))\n    bound = np.maximum(bound, min_bound)\n", "    bound = np.maximum(np.abs(min_value), np.abs(max_value))\n"),
+    'C17.R2', 'symmetric lower clamp removed: zero scale for an all-zero tensor', control=True)
+add('C17.zero_not_forced', 'C17', (UQT, "    bound_max = np.maximum(max_value, np.zeros_like(max_value))", "    bound_max = max_value"),
+    'C17.R2', 'zero no longer forced into the asymmetric range (all-negative tensors)')
+add('C17.cast_before_clip', 'C17', (UQT, "  ret = np.multiply(tensor_data, inverse_scales) + zero_points\n  ret = _round_and_clip(ret, qtype, narrow_range)\n  ret = assign_quantized_type(ret, qtype)\n  return ret\n\n\ndef uniform_dequantize(",
+    "  ret = np.multiply(tensor_data, inverse_scales) + zero_points\n  ret = assign_quantized_type(np.rint(ret), qtype)\n  ret = _round_and_clip(ret, qtype, narrow_range)\n  return ret\n\n\ndef uniform_dequantize("),
+    ('C17.R1', 'C17.R7'), 'cast before clip: out-of-range values wrap')
+add('C17.narrow_off_by_one', 'C17', (UQT, "          qmin + 1,\n          qmax,", "          qmin + 1,\n          qmax - 1,"), 'C17.R7', 'narrow range clips the top code too')
+add('C17.narrow_always_false', 'C17', (UQT, "  narrow_range = quantization_params.symmetric\n  required_dtype = np.signedinteger if qtype.signed else np.unsignedinteger\n  if not np.issubdtype(zero_points.dtype, required_dtype):\n    raise ValueError(\n        f\"zero_points need to be {required_dtype}.\"\n        f\" But the actual type is {zero_points.dtype}.\"\n    )\n  ret = np.multiply(tensor_data, inverse_scales) + zero_points",
+    "  narrow_range = False\n  required_dtype = np.signedinteger if qtype.signed else np.unsignedinteger\n  if not np.issubdtype(zero_points.dtype, required_dtype):\n    raise ValueError(\n        f\"zero_points need to be {required_dtype}.\"\n        f\" But the actual type is {zero_points.dtype}.\"\n    )\n  ret = np.multiply(tensor_data, inverse_scales) + zero_points"),
+    'C17.R7', 'symmetric quantization uses the full range (-128 appears)')
+add('C17.bias_32', 'C17', (UQT, "  bias_number_bits = 64 if input_tensor_quant_params.num_bits == 16 else 32", "  bias_number_bits = 32"), 'C17.R8', 'bias always 32 bit')
+add('C17.bias_scale', 'C17', (UQT, "  effective_output_scale = np.squeeze(input_tensor_scale * weight_tensor_scale)", "  effective_output_scale = np.squeeze(weight_tensor_scale)"),
+    'C17.R8', 'bias scale ignores the input scale')
+add('C17.skip_rank_fix', 'C17', (UQT, "  quantization_params = fix_quantization_params_rank(\n      tensor_data, quantization_params\n  )\n  _is_valid_quantization_params(tensor_data, quantization_params)\n  scales, zero_points = (",
+    "  if tensor_data.ndim > 1:\n    quantization_params = fix_quantization_params_rank(\n        tensor_data, quantization_params\n    )\n  _is_valid_quantization_params(tensor_data, quantization_params)\n  scales, zero_points = ("),
+    'C17.R6', 'rank fix-up skipped for 1-D tensors')
+add('C17.expand_wrong_axes', 'C17', (UQT, "        if dim != quantization_params.quantized_dimension\n    ]", "        if dim != 0\n    ]"), 'C17.R9', 'scale expanded as if the quantized dimension were always 0')
+add('C17.qmax_scale', 'C17', (UQT, "      scale = bound / qmax\n", "      scale = bound / (qmax + 1)\n"), 'C17.R2', 'symmetric scale divides by 2^(b-1) instead of qmax')
+add('C17.twin_divide', 'C17', (UQT, "  inverse_scales = 1.0 / scales\n  # TODO: b/332574603 - support unsigned data type.\n  qtype = IntType(quantization_params.num_bits, signed=True)\n  # Symmetric means narrow range (e.g., -127 to 127)\n  narrow_range = quantization_params.symmetric\n  required_dtype = np.signedinteger if qtype.signed else np.unsignedinteger\n  if not np.issubdtype(zero_points.dtype, required_dtype):\n    raise ValueError(\n        f\"zero_points need to be {required_dtype}.\"\n        f\" But the actual type is {zero_points.dtype}.\"\n    )\n  ret = np.multiply(tensor_data, inverse_scales) + zero_points",
+    "  # TODO: b/332574603 - support unsigned data type.\n  qtype = IntType(quantization_params.num_bits, signed=True)\n  # Symmetric means narrow range (e.g., -127 to 127)\n  narrow_range = quantization_params.symmetric\n  required_dtype = np.signedinteger if qtype.signed else np.unsignedinteger\n  if not np.issubdtype(zero_points.dtype, required_dtype):\n    raise ValueError(\n        f\"zero_points need to be {required_dtype}.\"\n        f\" But the actual type is {zero_points.dtype}.\"\n    )\n  ret = np.divide(tensor_data, scales) + zero_points"),
+    (), 'divide by the scale instead of multiplying by its inverse (same rational function)', kind='twin')
+add('C17.twin_widen_int64', 'C17', (UQT, "tensor_data.astype(np.float64) - quantization_params.zero_point", "tensor_data.astype(np.int64) - quantization_params.zero_point"),
+    (), 'widen to int64 instead of float64', kind='twin')
